@@ -292,7 +292,7 @@ int Group__group_union(struct Group* self, struct Group* group2, struct Group** 
                                ALL(UNI_INV_R) && ALL(UNI_INV_P)) __CPROVER_decreases((long)N(self) - i_2)
 #define VF_LOOP_Group__group_union_2                                                                                   \
   __CPROVER_assigns(__i2, i_2, g_new.pid_to_rank_map_.n, __CPROVER_object_whole(n_p2r), __CPROVER_object_whole(n_r2p)) \
-      __CPROVER_loop_invariant(__i2 <= __r2->n && __r2 == &ranks2 && (unsigned long)i_2 == N(self) + __i2 &&           \
+      __CPROVER_loop_invariant(__i2 <= __r2->n && __r2 == &ranks2 && 0 <= i_2 && (unsigned long)i_2 == N(self) + __i2 &&           \
                                PN(GN) <= CAP && UNI_RANKS2_OK && ALL(UNI_INV_R) && ALL(UNI_INV_P))                     \
           __CPROVER_decreases(__r2->n - __i2)
 
